@@ -31,6 +31,9 @@ type c04Cfg struct {
 	// Redial: history — the same Client has already completed a fault-free dial / send / close against a server that
 	// advertised the COMPLEMENTARY capability set; the judged session is the one of the second dial
 	Redial bool `json:"redial,omitempty"`
+	// BadMsg: a message the library has to refuse locally stands FIRST in every batch: 1 = no recipients,
+	// 2 = no sender. Nothing of it may reach the wire in a way that disturbs the messages that follow.
+	BadMsg int `json:"badmsg,omitempty"`
 }
 
 type c04Case struct {
@@ -277,6 +280,18 @@ func c04Exec(r *vf.Run, cfg c04Cfg, c *vf.Chooser) (keys []string, whats []strin
 				if cfg.NilMsg {
 					batch = append(batch[:1], append([]*mail.Msg{nil}, batch[1:]...)...)
 				}
+				switch cfg.BadMsg {
+				case 1:
+					bad := mail.NewMsg(mail.WithEncoding(enc))
+					_ = bad.From("norcpt@snd.example")
+					bad.SetBodyString(mail.TypeTextPlain, "a message without recipients")
+					batch = append([]*mail.Msg{bad}, batch...)
+				case 2:
+					bad := mail.NewMsg(mail.WithEncoding(enc))
+					_ = bad.To("nosender@rcp.example")
+					bad.SetBodyString(mail.TypeTextPlain, "a message without sender")
+					batch = append([]*mail.Msg{bad}, batch...)
+				}
 				err := cl.Send(batch...)
 				callErrs = append(callErrs, err)
 				if err != nil && sendErr == nil {
@@ -501,7 +516,7 @@ func init() {
 	vf.Register(&vf.Check{
 		ID: "C04", Title: "SMTP dialogue stays legal and in step under every reply script",
 		Run: func(r *vf.Run) {
-			r.SetRule("every reply script with at most k deviations from the all-success script (alphabet ok / 4yz / 5yz / drop / multi-line success reply / 421 followed by a disconnect at every command position incl. greeting, EHLO, STARTTLS, AUTH, NOOP, RSET, QUIT) × client configuration × advertised capability subset (another one after STARTTLS; and, as a history, the complementary one on an earlier connection of the same Client) × batch shape × number of Send calls; each execution runs the real Client against the reference SMTP automaton in lock-step; a case is distinct by (configuration, choice vector)")
+			r.SetRule("every reply script with at most k deviations from the all-success script (alphabet ok / 4yz / 5yz / drop / multi-line success reply / 421 followed by a disconnect at every command position incl. greeting, EHLO, STARTTLS, AUTH, NOOP, RSET, QUIT) × client configuration × advertised capability subset (another one after STARTTLS; and, as a history, the complementary one on an earlier connection of the same Client) × batch shape (optionally led by a message without recipients / without sender, or holding a nil message) × number of Send calls; each execution runs the real Client against the reference SMTP automaton in lock-step; a case is distinct by (configuration, choice vector)")
 			r.Assume("server never offers PIPELINING", "transport writes succeed after the peer closed (bytes discarded) and the next read reports EOF",
 				"a reply is 'read' once its bytes left the connection (bufio may hold them)")
 			type job struct {
@@ -532,6 +547,14 @@ func init() {
 								}
 							}
 						}
+					}
+				}
+			}
+			// a message that has to be refused locally stands first in the batch
+			for _, caps := range []int{0b001111, 0b000000, 0b010111} {
+				for bm := 1; bm <= 2; bm++ {
+					for tls := 0; tls < 2; tls++ {
+						jobs = append(jobs, job{c04Cfg{TLS: tls, DSN: 1, Caps: caps, M: 2, R: 1, BadMsg: bm}, 1}, job{c04Cfg{TLS: tls, DSN: 0, Enc8: true, Caps: caps, M: 1, R: 2, Calls: 2, BadMsg: bm}, 1})
 					}
 				}
 			}
